@@ -14,6 +14,135 @@ def generalise(msg):
     return re.sub(r"\s+", " ", m).strip()
 
 
+def iso_class(msg):
+    """class of a compile-path complaint (the classification of harness/src/c16.rs)"""
+    if "not imported in package" in msg:
+        return "not-imported"
+    if "Internal error" in msg or "ICE" in msg:
+        return "internal"
+    if "panic" in msg:
+        return "panic"
+    return "unresolved"
+
+
+def multi_package(ctx):
+    """the editor queries on multi-package projects — the worlds of the C16 generator (use forms in own / imported /
+    transitively reachable / unrelated packages, chains, confusable names) and the C14 visibility catalogues — judged
+    against the COMPILE path (`typecheck_with_packages`), which shares no dependency-environment loop with the
+    editor's `typecheck_with_packages_and_results` (harness/src/c16e.rs, `gv c16e`)."""
+    import time
+    t0 = time.time()
+    ok, out = ctx.gv("c16e")
+    path = os.path.join(ctx.run_dir, "c16e.cases.tsv")
+    rows = vlib.read_tsv(path) if ok and os.path.exists(path) else []
+    QS = [r for r in rows if len(r) > 1 and r[1] == "QS"]
+    QH = [r for r in rows if len(r) > 1 and r[1] == "QH"]
+    QC = [r for r in rows if len(r) > 1 and r[1] == "QC"]
+    QV = [r for r in rows if len(r) > 1 and r[1] == "QV"]
+    st = {"projects": len(QS), "projects_by_kind": {}, "typed": 0, "graph_error_projects_queried_once": 0,
+          "verdicts_agree": 0, "verdict_pairs": {},
+          "hover": {"asked": len(QH), "judged": 0, "agree": 0, "not_judged_both_reject_alike": 0, "differ_on_rejected_program": 0},
+          "completion_requests": {}, "offers_by_package_relation": {}, "items_inserted": {}, "skipped": {}}
+    if not QS:
+        ctx.broken_ties.append(("multi-package queries", "gv c16e produced no rows"))
+    for r in QS:
+        r = r + [""] * 11
+        cid, kind, payload, comp, edit, state, hov0 = r[0], r[2], r[3], r[4], r[5], r[6], r[7]
+        st["projects_by_kind"][kind] = st["projects_by_kind"].get(kind, 0) + 1
+        if state == "typed":
+            st["typed"] += 1
+        elif state == "untyped":
+            st["graph_error_projects_queried_once"] += 1
+        else:
+            ctx.report({"oracle": "crash", "site": "multi-package:" + state}, f"the queries on project {cid} did not return ({state})",
+                       {"id": cid, "world": payload})
+        if vlib.unesc(hov0).startswith("panic:"):
+            ctx.report({"oracle": "crash", "site": "multi-package hover on a project with a broken graph"}, vlib.unesc(hov0)[:200],
+                       {"id": cid, "world": payload})
+        pair = f"compile {comp.split()[0].strip('()')} / editor {edit.split()[0].strip('()')}"
+        st["verdict_pairs"][pair] = st["verdict_pairs"].get(pair, 0) + 1
+        if comp == edit:
+            st["verdicts_agree"] += 1
+        elif comp not in ("-", ""):
+            kind_d = "editor-accepts-what-the-compiler-rejects" if edit == "(accept)" else \
+                     "editor-rejects-what-the-compiler-accepts" if comp == "(accept)" else "other-diagnostic-classes"
+            ctx.report({"oracle": "entry-points-agree", "kind": kind_d},
+                       f"the editor's type check (typecheck_with_packages_and_results, behind hover/completions) says {edit} for a project "
+                       f"the compiler's own type check says {comp} about: what the editor shows for this file is not what the compiler decides",
+                       {"id": cid, "kind": kind, "world": payload, "compile_path": comp, "editor_path": edit})
+    for r in QH:
+        r = r + [""] * 14
+        cid, kind, f, off, l, c, nk, word, ty, got, comp, edit, files = r[0], r[2], r[3], r[4], r[5], r[6], r[7], r[8], vlib.unesc(r[9]), vlib.unesc(r[10]), r[11], r[12], r[13]
+        agree = got == "ok:" + ty
+        if got.startswith("panic:"):
+            ctx.report({"oracle": "crash", "site": "multi-package hover"}, got[:200], {"id": cid, "file": f, "line": int(l), "col": int(c), "files": vlib.unesc(files)})
+            continue
+        if comp == edit and comp != "(accept)":
+            # a program both paths reject alike: its TAST is not "the type the compiler assigned"
+            st["hover"]["not_judged_both_reject_alike"] += 1
+            if not agree:
+                st["hover"]["differ_on_rejected_program"] += 1
+            continue
+        st["hover"]["judged"] += 1
+        if agree:
+            st["hover"]["agree"] += 1
+            continue
+        rel = "no-hover" if not got.startswith("ok:") else "other-type"
+        scope = "accepted-project" if comp == edit else "entry-points-disagree"
+        where = "entry-file" if f == "main.gom" else "sibling-file-of-Main"
+        ctx.report({"oracle": "hover-agreement", "scope": "multi-package:" + scope, "node": nk, "relation": rel, "file": where},
+                   f"hover on `{word}` ({nk}) in {f} of a multi-package project reports `{got}`; the compiler's own type check types it `{ty}`"
+                   + ("" if comp == edit else f" — and says {comp} about the project where the editor path says {edit}"),
+                   {"id": cid, "file": f, "line": int(l), "col": int(c), "offset": int(off), "identifier": word, "tast_type": ty, "hover": got,
+                    "compile_path": comp, "editor_path": edit, "src": vlib.unesc(files)})
+    for r in QC:
+        r = r + [""] * 12
+        cid, kind, f, q, a, b, rel, listing, comp, edit, text = r[0], r[2], r[3], r[4], r[5], r[6], r[7], vlib.unesc(r[8]), r[9], r[10], r[11]
+        key = f"{q}:{a}" if q == "colon" else "dot"
+        st["completion_requests"][key] = st["completion_requests"].get(key, 0) + 1
+        if listing.startswith("panic:"):
+            ctx.report({"oracle": "crash", "site": f"multi-package {q}-completions"}, listing[:200], {"id": cid, "file": f, "src": vlib.unesc(text)})
+            continue
+        n = len(listing.split()) if listing else 0
+        k2 = f"{q}:{rel}:{'some' if n else 'none'}"
+        st["offers_by_package_relation"][k2] = st["offers_by_package_relation"].get(k2, 0) + 1
+    by_req = {}
+    for r in QV:
+        r = r + [""] * 14
+        cid, kind, f, q, a, b, rel, name, ik, verdict, comp, edit, files = r[0], r[2], r[3], r[4], r[5], r[6], r[7], r[8], r[9], vlib.unesc(r[10]), r[11], r[12], r[13]
+        key = f"{q}:{rel}:{ik}"
+        st["items_inserted"][key] = st["items_inserted"].get(key, 0) + 1
+        if verdict == "ok":
+            continue
+        if verdict.startswith("skip:"):
+            sk = verdict.split(":")[1]
+            st["skipped"][sk] = st["skipped"].get(sk, 0) + 1
+            continue
+        msg = verdict.split(":", 1)[1] if ":" in verdict else verdict
+        where = a if q == "colon" else "expression"
+        if rel in ("not-imported", "imported-by-sibling-file"):
+            what = (f"`{b}::` completions in {f} offer `{name}` ({ik}) although the file does not import {b}"
+                    if q == "colon" else
+                    f"`{a}.` completions in {f} offer `{name}` ({ik}) of `{b}`, a type of a package the "
+                    + ("file" if rel == "imported-by-sibling-file" else "package") + " does not import")
+            ctx.report({"oracle": "completion-respects-imports", "query": q, "item_kind": ik, "position": where, "package": rel, "class": iso_class(msg)},
+                       what + f"; inserted, the compiler's own type check says: {msg[:200]}",
+                       {"id": cid, "file": f, "item": name, "kind": ik, "namespace_or_receiver": b if q == "colon" else a, "receiver_type": b if q == "dot" else None,
+                        "verdict": msg, "compile_path": comp, "editor_path": edit, "src": vlib.unesc(files)})
+        else:
+            ctx.report({"oracle": "completion-validity", "scope": "multi-package", "query": q, "item_kind": ik, "position": where, "package": rel, "class": iso_class(msg)},
+                       f"{q}-completion in {f} of a multi-package project offers `{name}` ({ik}) but inserting it makes the compiler's own type check say: {msg[:200]}",
+                       {"id": cid, "file": f, "item": name, "kind": ik, "verdict": msg, "compile_path": comp, "editor_path": edit, "src": vlib.unesc(files)})
+    st["seconds"] = round(time.time() - t0, 1)
+    st["rule"] = ("the first 300 (thorough: 3000) worlds of the C16 generator + the C14 catalogues lookup_visibility_projects / import_rule_projects "
+                  "(every project whose user package is Main, every third of the others); per project: one verdict per type-check entry point; hover at up to 14 "
+                  "identifiers per file of package Main that the compile path's TAST records (nominal / compound types first) against that TAST type — judged when both "
+                  "paths accept or when their verdicts differ; `P::` completions for every package directory of the project and one name nobody has, in expression, type "
+                  "and trait-bound position, every offered item (3 per kind) inserted and re-checked by typecheck_with_packages (new error messages, as a set, digits "
+                  "blanked); `x.` completions on up to 3 let-bound variables of nominal type, every item inserted likewise, calibrated by a non-existent member")
+    return st
+
+
 def run(ctx):
     ctx.extract()
     ctx.build_lean(["GomlVerif.Props.C20"])
@@ -198,6 +327,9 @@ def run(ctx):
                    {"id": tid, "variant": variant, "query": q, "line": int(l2), "col": int(c2), "answer": b,
                     "original_line": int(l), "original_col": int(c), "original_answer": a, "src": vlib.unesc(text)})
 
+    # ---------------------------------------------------------------- multi-package projects: the editor path against the compile path
+    mp = multi_package(ctx) if not extra else {}
+
     ctx.violations.sort(key=lambda v: len(v[2].get("src", "")))
 
     # ---------------------------------------------------------------- coverage
@@ -230,8 +362,10 @@ def run(ctx):
                 and 60 < int(stat(r, "len")) < 400 and r[1] in texts_by_id and not any(s["kind"] == r[2] for s in samples[1:]):
             samples.append({"id": r[1], "kind": r[2], "text": bytes.fromhex(texts_by_id[r[1]]).decode("utf-8", "replace"), "stats": r[3]})
     nbases = next((int(r[1]) for r in rows if r[0] == "#BASES"), 0)
+    mp_evals = (mp.get("hover", {}).get("asked", 0) + sum(mp.get("completion_requests", {}).values()) + sum(mp.get("items_inserted", {}).values())
+                + 2 * mp.get("projects", 0)) if mp else 0
     cov = {
-        "evaluations": calls + wasm + n_hov + n_cmp,
+        "evaluations": calls + wasm + n_hov + n_cmp + mp_evals,
         "distinct_nontrivial": len(distinct),
         "rule": "one evaluation = one call of hover_type / dot_completions / colon_colon_completions (or a wasm-app wrapper) on one "
                 "(text, line, col), plus one hover per TAST identifier and one re-typecheck per offered completion item; "
@@ -264,6 +398,7 @@ def run(ctx):
                               "variants": "crlf, blank-lines-top (all full/mutation/trigger-prefix texts); mixed-lf-crlf, blank-lines-top-crlf, blank-lines-middle, lone-cr, no-final-newline, tab-indent, multibyte-line-above, multibyte-same-line (whole programs)",
                               "crlf_or_mixed_texts_through_all_oracles": sum(1 for r in T if r[1].endswith(":crlf") or r[1].endswith(":mixed"))},
         "completion_validity": {"items_checked": n_cmp, "ok": n_cmp_ok, "skipped": skip_kinds, "by_kind": cmp_kinds},
+        "multi_package_projects": mp,
         "samples": samples,
         "impl_oracle_failures": len(ctx.violations), "model_diffs": len([b for b in ctx.broken_ties if b[0] == "position-mapping correspondence"]),
         "explanation": "partial proof + fault enumeration: the position logic (line/column -> byte offset, rowan token selection, placeholder "
@@ -285,8 +420,11 @@ def run(ctx):
         "match arms, closure bodies, receivers) are only covered by `hover-ground`: no inference variable "
         "in any hover answer at any swept position of an accepted text",
         "a completion is valid if inserting it does not produce a diagnostic that a non-existent name inserted at the same place also produces and that was not there before",
+        "multi-package projects: validity of an offered item is judged by typecheck_with_packages (the type check behind `compile`), not by the editor's own type check; "
+        "a `P::` item is valid if its insertion adds no error message (set of messages, digits blanked, open type variables of a generic function named as a value ignored); "
+        "hover on a program that both type checks reject alike is recorded, not judged",
     ]
     tb = ["Lean 4 kernel", "axioms: " + ",".join(ctx.proof["axioms"] or ["none"]),
-          "tools/extract.py extract_query_glue (regex over query.rs)", "harness/src/c20.rs, harness/src/crash.rs", "tools/props/c20.py",
+          "tools/extract.py extract_query_glue (regex over query.rs)", "harness/src/c20.rs, harness/src/crash.rs", "harness/src/c16e.rs (multi-package probes; world generator of harness/src/c16.rs, catalogues of harness/src/c14.rs)", "tools/props/c20.py",
           "line-index 0.1.2 and rowan 0.16.1 behave as modelled (diffed on every tie position)"]
     return ctx.finish(level, cov, tb, "lake build GomlVerif.Props.C20 && lake env lean Axioms.lean (#print axioms); gv c20 | gomlmodel c20")
